@@ -5,7 +5,16 @@ import OW.Props.GenTieBase
 namespace OW.Props.GenTie
 open OW OW.Kernels OW.Gen.K OW.Gen.Prelude
 
-/-! ### models/rr/gr4j.go -/
+-- which rewrite rules fire depends on how the source is written at the moment
+set_option linter.unusedSimpArgs false
+
+/-! ### models/rr/gr4j.go
+
+The tie is proved by NORMALISING the regenerated text: helper functions are unfolded (`gen_unfold`), every loop over a slice
+is rewritten by a lemma into the list expression it computes (`forRange_addUH`, `forRange_shift`, `sh_build`, `uh_of_sh`, …),
+`len(…)` of such an expression is computed, and the result is compared with the hand-written model. The lemmas are about the
+MEANING of a loop form, so the same script goes through when the source moves a loop into a helper function, takes a bound
+from `len(xs)` instead of a count that equals it, names a sub-expression, or declares a variable elsewhere. -/
 
 /-- `q[i] = q[i] + c*u[i]` for `0 ≤ i < n` (both buffers of length `n`) is `zipWith` -/
 theorem forRange_addUH {α} [Num α] (q u : List α) (n : Nat) (hq : q.length = n) (hu : u.length = n) (c : α) :
@@ -34,6 +43,20 @@ theorem forRange_shift {α} [Num α] (q : List α) (n : Nat) (hq : q.length = n)
   exact forNat_shift_tail default z q n hq hn
 
 
+/-- `copy(q[:n-1], q[1:n]); q[n-1] = z` is the same shift (n = len(q) ≥ 1) -/
+theorem copy_shift {α} [Num α] (q : List α) (n : Nat) (hq : q.length = n) (hn : 0 < n) (z : α) :
+    sliceSet (sliceCopy q 0 ((n : Int) - 1) q 1 (n : Int)) ((n : Int) - 1) z = q.tail ++ [z] := by
+  rw [sliceCopy_shift q n hq]
+  unfold sliceSet
+  have h1 : ((n : Int) - 1).toNat = n - 1 := by omega
+  have ht : q.tail.length = n - 1 := by simp [hq]
+  rw [h1, List.set_append_right _ _ (by omega), ht, Nat.sub_self]
+  obtain ⟨x, hx⟩ : ∃ x, q.drop (n - 1) = [x] := List.length_eq_one_iff.mp (by simp [hq]; omega)
+  rw [hx]; rfl
+
+/-- `len(xs)` as the cast of the list's length -/
+theorem sliceLen_eq_cast {β} (xs : List β) : sliceLen xs = (xs.length : Int) := rfl
+
 theorem sliceGet_zero_headD {α} [Num α] (l : List α) (z : α) (h : 0 < l.length) : sliceGet l 0 = l.headD z := by
   cases l with
   | nil => simp at h
@@ -47,38 +70,21 @@ def FourNinths (α : Type) [Num α] : Prop := (0.4444444444444444 : α) = 4 / 9
 
 #guard Num.feq (0.4444444444444444 : Float) (4 / 9)
 
+/-- what the day loop computes from the incoming state: the hand-written step, in the layout of the regenerated one -/
 theorem gen_eq_GR4J_step {α} [Num α] (h0 : NatZero α) (h49 : FourNinths α) (s0 r0 x1 x2 x3 x4 : α) (uH1 uH2 : List α)
     (st : GR4J.State α) (n1 n2 : Nat) (hn1 : 0 < n1) (hn2 : 0 < n2) (hq9 : st.q9.length = n1) (hq1 : st.q1.length = n2)
-    (hu1 : uH1.length = n1) (hu2 : uH2.length = n2) (ps es pr perc rain pet : α) :
-    gr4j.step s0 r0 x1 x2 x3 x4 uH1 uH2 st.S st.R n1 n2 st.q1 st.q9 ps es pr perc rain pet =
+    (hu1 : uH1.length = n1) (hu2 : uH2.length = n2) (rain pet : α) :
+    gr4j.step s0 r0 x1 x2 x3 x4 uH1 uH2 st.S st.R n1 n2 st.q1 st.q9 rain pet =
       (let h := GR4J.step x1 x2 x3 uH1 uH2 st (rain, pet)
-       let prod := GR4J.production x1 st.S rain pet
-       ((h.1.S, h.1.R, (n1 : Int), (n2 : Int), h.1.q1, h.1.q9, prod.1, h.2.es, h.2.pr,
-         GR4J.percolation x1 (st.S - prod.2.1 + prod.1)), h.2.runoff)) := by
+       ((h.1.S, h.1.R, (n1 : Int), (n2 : Int), h.1.q1, h.1.q9), h.2.runoff)) := by
   unfold NatZero at h0
   unfold FourNinths at h49
   unfold gr4j.step GR4J.step GR4J.production GR4J.capWs GR4J.percolation GR4J.routingOutflow GR4J.addUH GR4J.shift GR4J.head0
-  by_cases h1 : rain > pet
-  · have h1' : pet < rain := h1
-    by_cases h2 : (rain - pet) / x1 > 13.0
-    · have h2' : (13.0 : α) < (rain - pet) / x1 := h2
-      simp only [h1', h2', ↓reduceIte, forRange_addUH st.q9 uH1 n1 hq9 hu1, forRange_addUH st.q1 uH2 n2 hq1 hu2]
-      simp only [forRange_shift, sliceGet_zero_headD (z := (0.0 : α)), List.length_zipWith, hq9, hu1, hq1, hu2, Nat.min_self, hn1, hn2]
-      simp only [h0, h49]
-    · have h2' : ¬ (13.0 : α) < (rain - pet) / x1 := h2
-      simp only [h1', h2', ↓reduceIte, forRange_addUH st.q9 uH1 n1 hq9 hu1, forRange_addUH st.q1 uH2 n2 hq1 hu2]
-      simp only [forRange_shift, sliceGet_zero_headD (z := (0.0 : α)), List.length_zipWith, hq9, hu1, hq1, hu2, Nat.min_self, hn1, hn2]
-      simp only [h0, h49]
-  · have h1' : ¬ pet < rain := h1
-    by_cases h2 : (pet - rain) / x1 > 13.0
-    · have h2' : (13.0 : α) < (pet - rain) / x1 := h2
-      simp only [h1', h2', ↓reduceIte, forRange_addUH st.q9 uH1 n1 hq9 hu1, forRange_addUH st.q1 uH2 n2 hq1 hu2]
-      simp only [forRange_shift, sliceGet_zero_headD (z := (0.0 : α)), List.length_zipWith, hq9, hu1, hq1, hu2, Nat.min_self, hn1, hn2]
-      simp only [h0, h49]
-    · have h2' : ¬ (13.0 : α) < (pet - rain) / x1 := h2
-      simp only [h1', h2', ↓reduceIte, forRange_addUH st.q9 uH1 n1 hq9 hu1, forRange_addUH st.q1 uH2 n2 hq1 hu2]
-      simp only [forRange_shift, sliceGet_zero_headD (z := (0.0 : α)), List.length_zipWith, hq9, hu1, hq1, hu2, Nat.min_self, hn1, hn2]
-      simp only [h0, h49]
+  by_cases h1 : pet < rain <;> by_cases h2 : (13.0 : α) < (rain - pet) / x1 <;> by_cases h3 : (13.0 : α) < (pet - rain) / x1 <;>
+    (simp only [gen_unfold, gt_iff_lt, h1, h2, h3, ↓reduceIte, decide_true, decide_false, Bool.false_eq_true,
+      sliceLen_eq_cast, hq9, hq1, hu1, hu2, forRange_addUH st.q9 uH1 n1 hq9 hu1, forRange_addUH st.q1 uH2 n2 hq1 hu2]
+     simp only [forRange_shift, copy_shift, sliceGet_zero_headD (z := (0.0 : α)), List.length_zipWith, hq9, hu1, hq1, hu2, Nat.min_self, hn1, hn2]
+     simp only [h0, h49])
 
 /-- `float64(i)` of a non-negative int is the float of the natural number (true at `Float`: `Float.ofInt (Int.ofNat n)` is
 `Float.ofNat n` by definition; at `ℝ`: both are the cast) -/
@@ -86,93 +92,95 @@ def OfIntNat (α : Type) [Num α] : Prop := ∀ n : Nat, (Num.ofInt (n : Int) : 
 
 theorem ofIntNat_float : OfIntNat Float := fun _ => rfl
 
-/-- the S-curve / unit-hydrograph construction of gr4j.go for one hydrograph of `n ≥ 1` ordinates:
-`SH := make(n); for i { SH[i] = g i }; SH[n-1] = 1.0; UH := make(n); UH[0] = SH[0]; for i := 1.. { UH[i] = SH[i] - SH[i-1] }` -/
-theorem uh_build {α} [Num α] (g : Int → α) (n : Nat) (hn : 0 < n) :
-    forRange 1 (n : Int)
-        (fun i uh => sliceSet uh i
-          (sliceGet (sliceSet (forRange 0 (n : Int) (fun i sh => sliceSet sh i (g i)) (mkSlice (n : Int))) ((n : Int) - 1) 1.0) i -
-           sliceGet (sliceSet (forRange 0 (n : Int) (fun i sh => sliceSet sh i (g i)) (mkSlice (n : Int))) ((n : Int) - 1) 1.0) (i - 1)))
-        (sliceSet (mkSlice (n : Int)) 0
-          (sliceGet (sliceSet (forRange 0 (n : Int) (fun i sh => sliceSet sh i (g i)) (mkSlice (n : Int))) ((n : Int) - 1) 1.0) 0)) =
-      (List.range n).map (fun j =>
-        if j = 0 then (if 0 + 1 = n then (1.0 : α) else g ((0 : Nat) : Int))
-        else (if j + 1 = n then (1.0 : α) else g (j : Int)) - (if j - 1 + 1 = n then (1.0 : α) else g ((j - 1 : Nat) : Int))) := by
-  have hSH : sliceSet (forRange 0 (n : Int) (fun i sh => sliceSet sh i (g i)) (mkSlice (n : Int))) ((n : Int) - 1) 1.0 =
+/-- an S-curve of `n` ordinates: `SH := make(n); for i := 0; i < n; i++ { SH[i] = g i }; SH[n-1] = 1.0` -/
+theorem sh_build {α} [Num α] (g : Int → α) (n : Nat) :
+    sliceSet (forRange 0 (n : Int) (fun i sh => sliceSet sh i (g i)) (mkSlice (n : Int))) ((n : Int) - 1) 1.0 =
       (List.range n).map (fun j => if j + 1 = n then (1.0 : α) else g (j : Int)) := by
-    unfold forRange
-    have h1 : ((n : Int) - 0).toNat = n := by omega
-    have e := fun (b : Int → List α → List α) (c : List α) => forRangeN_eq_forNat b n 0 c
-    rw [h1, show forRangeN (fun i sh => sliceSet sh i (g i)) n 0 (mkSlice (n : Int)) = _ from e _ _]
-    have h2 : ((n : Int) - 1).toNat = n - 1 := by omega
-    show (forNat (fun (j : Nat) (sh : List α) => sh.set j (g (j : Int))) n 0 (List.replicate n Num.zero)).set ((n : Int) - 1).toNat 1.0 = _
-    rw [h2, forNat_tabulate_replicate, map_range_set_last]
-  rw [hSH]
+  unfold forRange
+  have h1 : ((n : Int) - 0).toNat = n := by omega
+  have e := fun (b : Int → List α → List α) (c : List α) => forRangeN_eq_forNat b n 0 c
+  rw [h1, show forRangeN (fun i sh => sliceSet sh i (g i)) n 0 (mkSlice (n : Int)) = _ from e _ _]
+  have h2 : ((n : Int) - 1).toNat = n - 1 := by omega
+  show (forNat (fun (j : Nat) (sh : List α) => sh.set j (g (j : Int))) n 0 (List.replicate n Num.zero)).set ((n : Int) - 1).toNat 1.0 = _
+  rw [h2, forNat_tabulate_replicate, map_range_set_last]
+
+/-- the unit-hydrograph ordinates of an S-curve `SH = [f 0, …, f (n-1)]`, `n ≥ 1`:
+`UH := make(n); UH[0] = SH[0]; for i := 1; i < n; i++ { UH[i] = SH[i] - SH[i-1] }` -/
+theorem uh_of_sh {α} [Num α] (f : Nat → α) (n : Nat) (hn : 0 < n) :
+    forRange 1 (n : Int)
+        (fun i uh => sliceSet uh i (sliceGet ((List.range n).map f) i - sliceGet ((List.range n).map f) (i - 1)))
+        (sliceSet (mkSlice (n : Int)) 0 (sliceGet ((List.range n).map f) 0)) =
+      (List.range n).map (fun j => if j = 0 then f 0 else f j - f (j - 1)) := by
   unfold forRange
   have h2 : ((n : Int) - 1).toNat = n - 1 := by omega
   have e := fun (b : Int → List α → List α) (c : List α) => forRangeN_eq_forNat b (n - 1) 1 c
   rw [h2]
   refine (e _ _).trans ?_
   have hb : (fun (j : Nat) (uh : List α) => sliceSet uh (j : Int)
-        (sliceGet ((List.range n).map (fun j => if j + 1 = n then (1.0 : α) else g (j : Int))) (j : Int) -
-         sliceGet ((List.range n).map (fun j => if j + 1 = n then (1.0 : α) else g (j : Int))) ((j : Int) - 1))) =
+        (sliceGet ((List.range n).map f) (j : Int) - sliceGet ((List.range n).map f) ((j : Int) - 1))) =
       (fun (j : Nat) (uh : List α) => uh.set j
-        (((List.range n).map (fun j => if j + 1 = n then (1.0 : α) else g (j : Int))).getD j default -
-         ((List.range n).map (fun j => if j + 1 = n then (1.0 : α) else g (j : Int))).getD (j - 1) default)) := by
+        (((List.range n).map f).getD j default - ((List.range n).map f).getD (j - 1) default)) := by
     funext j uh
     unfold sliceSet sliceGet
     have : ((j : Int) - 1).toNat = j - 1 := by omega
     rw [this]; rfl
   rw [hb]
-  exact forNat_differences (fun a b => a - b) (fun j => if j + 1 = n then (1.0 : α) else g (j : Int)) n hn Num.zero default
+  exact forNat_differences (fun a b => a - b) f n hn Num.zero default
+
+/-- the same ordinates written from the last one down: `for i := n-1; i > 0; i-- { UH[i] = SH[i] - SH[i-1] }` -/
+theorem uh_of_sh_down {α} [Num α] (f : Nat → α) (n : Nat) (hn : 0 < n) :
+    forRangeDown ((n : Int) - 1) 0
+        (fun i uh => sliceSet uh i (sliceGet ((List.range n).map f) i - sliceGet ((List.range n).map f) (i - 1)))
+        (sliceSet (mkSlice (n : Int)) 0 (sliceGet ((List.range n).map f) 0)) =
+      (List.range n).map (fun j => if j = 0 then f 0 else f j - f (j - 1)) := by
+  rw [forRangeDown_eq_forRange (fun i => sliceGet ((List.range n).map f) i - sliceGet ((List.range n).map f) (i - 1)) _ 0
+    (Int.le_refl 0)]
+  have e1 : ((n : Int) - 1 + 1) = n := by omega
+  have e2 : ((0 : Int) + 1) = 1 := rfl
+  rw [e1, e2]
+  exact uh_of_sh f n hn
+
+/-- `len` of a table of `n` cells -/
+theorem sliceLen_map_range {β} (f : Nat → β) (n : Nat) : sliceLen ((List.range n).map f) = (n : Int) := by
+  simp [sliceLen]
+
+theorem sliceLen_mkSlice {α} [Num α] (n : Nat) : sliceLen (mkSlice (n : Int) : List α) = (n : Int) := by
+  simp [sliceLen, mkSlice]
+
+/-- a store into the same cell on both branches is one store of the chosen value -/
+theorem ite_sliceSet {α} (c : Prop) [Decidable c] (xs : List α) (i : Int) (a b : α) :
+    (if c then sliceSet xs i a else sliceSet xs i b) = sliceSet xs i (if c then a else b) := by
+  split <;> rfl
 
 theorem gen_eq_GR4J_pre {α} [Num α] (hc : OfIntNat α) (s0 r0 x1 x2 x3 x4 : α) (q1 q9 : List α) (n1 n2 : Nat)
     (hn1 : 0 < n1) (hn2 : 0 < n2) :
     gr4j.pre s0 r0 n1 n2 q1 q9 x1 x2 x3 x4 = (GR4J.uh1 x4 n1, GR4J.uh2 x4 n2) := by
-  unfold gr4j.pre
-  dsimp only
-  have hb : (fun (i : Int) (sh : List α) =>
-        if Num.ofInt (i + 1) / x4 ≤ 1 then sliceSet sh i (0.5 * Num.pow (Num.ofInt (i + 1) / x4) 2.5)
-        else if Num.ofInt (i + 1) / x4 < 2 then sliceSet sh i (1 - 0.5 * Num.pow (2 - Num.ofInt (i + 1) / x4) 2.5)
-        else sliceSet sh i 1.0) =
-      (fun (i : Int) (sh : List α) => sliceSet sh i
-        (if Num.ofInt (i + 1) / x4 ≤ 1 then 0.5 * Num.pow (Num.ofInt (i + 1) / x4) 2.5
-         else if Num.ofInt (i + 1) / x4 < 2 then 1 - 0.5 * Num.pow (2 - Num.ofInt (i + 1) / x4) 2.5 else 1.0)) := by
-    funext i sh
-    split
-    · rfl
-    · split <;> rfl
-  rw [hb, uh_build (fun i => Num.pow (Num.ofInt (i + 1) / x4) 2.5) n1 hn1,
-    uh_build (fun i => if Num.ofInt (i + 1) / x4 ≤ 1 then 0.5 * Num.pow (Num.ofInt (i + 1) / x4) 2.5
-         else if Num.ofInt (i + 1) / x4 < 2 then 1 - 0.5 * Num.pow (2 - Num.ofInt (i + 1) / x4) 2.5 else 1.0) n2 hn2]
   have hcast : ∀ j : Nat, (Num.ofInt ((j : Int) + 1) : α) = Num.ofNat (j + 1) := by
     intro j
     have : ((j : Int) + 1) = ((j + 1 : Nat) : Int) := by omega
     rw [this, hc]
-  unfold GR4J.uh1 GR4J.uh2 GR4J.uh1At GR4J.uh2At GR4J.sh1At GR4J.sh2At
-  simp only [hcast]
+  unfold gr4j.pre GR4J.uh1 GR4J.uh2 GR4J.uh1At GR4J.uh2At GR4J.sh1At GR4J.sh2At
+  simp only [gen_unfold, ite_sliceSet, sliceSet_length, sliceLen_mkSlice, sh_build, sliceLen_map_range, Int.sub_self,
+    uh_of_sh _ n1 hn1, uh_of_sh _ n2 hn2, uh_of_sh_down _ n1 hn1, uh_of_sh_down _ n2 hn2, hcast]
 
 /-- `gr4j` (models/rr/gr4j.go). `n1`, `n2` are the (positive) numbers of ordinates, the two buffers have those lengths (as
-`extractGR4JStates` delivers them). Before the loop the code builds the unit-hydrograph ordinates in place (four loops over
+`extractGR4JStates` delivers them). Before the loop the code builds the unit-hydrograph ordinates in place (loops over
 `SH1/UH1/SH2/UH2`): `pre` = (`GR4J.uh1`, `GR4J.uh2`). One iteration — production store, percolation, the two in-place
-convolution loops, the two shift loops, routing store, exchange — is `GR4J.step`; `n1`, `n2` pass through. The variables
-`Ps, Es, Pr, Perc` are declared before the loop and reset in every iteration: they are hidden state of the regenerated
-`step` whose incoming values are not read (the theorem holds for all of them).
+convolution loops, the two shift loops, routing store, exchange — is `GR4J.step`; `n1`, `n2` pass through. Variables that
+are declared before the loop but assigned in every iteration before they are read (`Ps, Es, Pr, Perc` in the original
+text) are locals of the regenerated `step`, not state.
 Literal identities: `NatZero` (`R = 0`), `FourNinths` (`4.0/9.0` folded by the compiler), `OfIntNat` (`float64(i+1)`). -/
 theorem gen_eq_GR4J {α} [Num α] (h0 : NatZero α) (h49 : FourNinths α) (hc : OfIntNat α) (s0 r0 x1 x2 x3 x4 : α)
     (st : GR4J.State α) (n1 n2 : Nat) (hn1 : 0 < n1) (hn2 : 0 < n2) (hq9 : st.q9.length = n1) (hq1 : st.q1.length = n2)
-    (ps es pr perc rain pet : α) :
+    (rain pet : α) :
     gr4j.guard s0 r0 n1 n2 st.q1 st.q9 x1 x2 x3 x4 = false ∧
     gr4j.pre s0 r0 n1 n2 st.q1 st.q9 x1 x2 x3 x4 = (GR4J.uh1 x4 n1, GR4J.uh2 x4 n2) ∧
-    gr4j.init s0 r0 n1 n2 st.q1 st.q9 x1 x2 x3 x4 =
-      (s0, r0, (n1 : Int), (n2 : Int), st.q1, st.q9, Num.zero, Num.zero, Num.zero, Num.zero) ∧
-    gr4j.step s0 r0 x1 x2 x3 x4 (GR4J.uh1 x4 n1) (GR4J.uh2 x4 n2) st.S st.R n1 n2 st.q1 st.q9 ps es pr perc rain pet =
+    gr4j.init s0 r0 n1 n2 st.q1 st.q9 x1 x2 x3 x4 = (s0, r0, (n1 : Int), (n2 : Int), st.q1, st.q9) ∧
+    gr4j.step s0 r0 x1 x2 x3 x4 (GR4J.uh1 x4 n1) (GR4J.uh2 x4 n2) st.S st.R n1 n2 st.q1 st.q9 rain pet =
       (let h := GR4J.step x1 x2 x3 (GR4J.uh1 x4 n1) (GR4J.uh2 x4 n2) st (rain, pet)
-       let prod := GR4J.production x1 st.S rain pet
-       ((h.1.S, h.1.R, (n1 : Int), (n2 : Int), h.1.q1, h.1.q9, prod.1, h.2.es, h.2.pr,
-         GR4J.percolation x1 (st.S - prod.2.1 + prod.1)), h.2.runoff)) :=
+       ((h.1.S, h.1.R, (n1 : Int), (n2 : Int), h.1.q1, h.1.q9), h.2.runoff)) :=
   ⟨rfl, gen_eq_GR4J_pre hc s0 r0 x1 x2 x3 x4 st.q1 st.q9 n1 n2 hn1 hn2, rfl,
    gen_eq_GR4J_step h0 h49 s0 r0 x1 x2 x3 x4 _ _ st n1 n2 hn1 hn2 hq9 hq1 (by simp [GR4J.uh1]) (by simp [GR4J.uh2])
-     ps es pr perc rain pet⟩
+     rain pet⟩
 
 end OW.Props.GenTie
